@@ -97,20 +97,39 @@ def _install_contracts():
     contracts.post(M.MultipartDecoder, "next_event", "decoder-transition", snap, cond, describe)
 
 
-def decode(M, body, boundary, cuts, max_parts=None):
-    """Feed body cut at `cuts` (sorted offsets, repeats = empty pieces) and return the list of parts or ('EXC', type, msg)."""
+def decode(M, body, boundary, cuts, max_parts=None, driver="drain"):
+    """Feed body cut at `cuts` (sorted offsets, repeats = empty pieces) and return the list of parts or ('EXC', type, msg).
+    driver: how the caller alternates between handing over pieces and asking for events -
+      drain      one piece, events until NeedData, next piece (what MultiPartParser does)
+      pairs      two pieces handed over back to back before any event is asked for
+      lazy       one event per piece only (a driver that polls), everything drained at the end
+      scratch    pieces handed over in one bytearray the caller re-uses for every read (recv_into style)"""
     d = M.MultipartDecoder(boundary) if max_parts is None else M.MultipartDecoder(boundary, max_parts=max_parts)
     parts = []
     cur = None
     prev = 0
+    scratch = bytearray()
+    fed = 0
     try:
         for c in itertools.chain(cuts, (len(body), None)):
             if c is None:
                 d.receive_data(None)
             else:
-                d.receive_data(body[prev:c])
+                if driver == "scratch":
+                    scratch[:] = body[prev:c]
+                    d.receive_data(scratch)
+                else:
+                    d.receive_data(body[prev:c])
                 prev = c
+                fed += 1
+                if driver == "pairs" and fed % 2 == 1 and c != len(body):
+                    continue  # the next piece follows at once
+            budget_events = 1 if (driver == "lazy" and c is not None and c != len(body)) else None
             while True:
+                if budget_events is not None:
+                    if budget_events == 0:
+                        break
+                    budget_events -= 1
                 e = d.next_event()
                 if isinstance(e, M.NeedData):
                     break
@@ -462,9 +481,12 @@ def check_body(M, FP, rec, rng, cfg, body, cls, bnd, expected, case_base):
     multi = len(expected) >= 2
     state = {"dead": False}
 
-    def one(cuts, mode="decoder", max_parts=None):
+    def one(cuts, mode="decoder", max_parts=None, driver="drain"):
         rec.case()
-        got = decode(M, body, bnd, cuts, max_parts)
+        got = decode(M, body, bnd, cuts, max_parts, driver)
+        if driver != "drain":
+            rec.observe("schedules_with_other_drivers")
+            mode = f"{mode}[{driver}]"
         nt = multi
         for c in cuts:
             k = chr(cls[c - 1]) if cls[c - 1] == cls[c] else chr(cls[c - 1]) + chr(cls[c])
@@ -487,12 +509,16 @@ def check_body(M, FP, rec, rng, cfg, body, cls, bnd, expected, case_base):
     ok = one(())
     if not ok:
         return
+    DRIVERS = ("pairs", "lazy", "scratch")
     for i in range(1, n):
         one((i,))
+        one((i,), driver=DRIVERS[i % 3])
     rec.observe("two_way_bodies")
     if n <= cfg["three_way_max"]:
-        for pair in itertools.combinations(range(1, n), 2):
+        for j_, pair in enumerate(itertools.combinations(range(1, n), 2)):
             one(pair)
+            if j_ % 5 == 0:
+                one(pair, driver=DRIVERS[(j_ // 5) % 3])
         rec.observe("three_way_exhaustive_bodies")
     elif n <= cfg["zone3_max"]:
         zone = [i for i in range(1, n) if cls[i - 1] in b"LD" or cls[i] in b"LD" or (cls[i - 1] != cls[i])]
@@ -501,6 +527,9 @@ def check_body(M, FP, rec, rng, cfg, body, cls, bnd, expected, case_base):
             one(pair)
         rec.observe("three_way_zone_bodies")
     one(tuple(range(1, n)), mode="byte-at-a-time")
+    for drv in DRIVERS:
+        one(tuple(range(1, n)), mode="byte-at-a-time", driver=drv)
+        one(tuple(range(3, n, 7)), mode="seven-at-a-time", driver=drv)
     # schedules with empty pieces (an empty read / frame with more to come): one empty piece at every position,
     # and empty pieces between all single bytes
     for i in range(1, n, max(1, n // 40)):
